@@ -26,7 +26,7 @@ package ldb
 // D3: the write batch as an overlay log.  wfBatch: maps allocated, every put entry non-nil, sequence numbers
 // never exceed seqNo (so a later operation always has the larger number), a put and a delete of one key never
 // carry the same number.
-//@ define wfBatch(b) = (b != nil && b.puts != nil && b.deletes != nil && (forall qs_ string :: has(b.puts, qs_) ==> b.puts[qs_] != nil && b.puts[qs_].seq <= b.seqNo) && (forall qs_ string :: has(b.deletes, qs_) ==> b.deletes[qs_] <= b.seqNo && (has(b.puts, qs_) ==> b.deletes[qs_] != b.puts[qs_].seq)))
+//@ define wfBatch(b) = (b != nil && b.puts != nil && b.deletes != nil && (forall qs_ string :: has(b.puts, qs_) ==> b.puts[qs_] != nil && b.puts[qs_].data != nil && b.puts[qs_].seq <= b.seqNo) && (forall qs_ string :: has(b.deletes, qs_) ==> b.deletes[qs_] <= b.seqNo && (has(b.puts, qs_) ==> b.deletes[qs_] != b.puts[qs_].seq)))
 //@ define isDeleted(b, s) = (has(b.deletes, s) && (!has(b.puts, s) || b.deletes[s] > b.puts[s].seq))
 //@ define isPut(b, s) = (has(b.puts, s) && (!has(b.deletes, s) || b.deletes[s] <= b.puts[s].seq))
 
@@ -39,7 +39,7 @@ package ldb
 
 //@ func (*batch).Put
 //@   props C11 C19
-//@   requires wfBatch(b) && b.seqNo < 0xffffffff
+//@   requires wfBatch(b) && b.seqNo < 0xffffffff && v != nil
 //@   modifies b, b.puts
 //@   ensures wfBatch(b) && b.seqNo == old(b.seqNo) + 1 && sameRef(b.puts, old(b.puts)) && sameRef(b.deletes, old(b.deletes)) && b.b == old(b.b)
 //@   ensures has(b.puts, strOf(k)) && b.puts[strOf(k)].seq == b.seqNo && sameSlice(b.puts[strOf(k)].data, v)
@@ -63,3 +63,80 @@ package ldb
 //@   ensures forall qs_ string :: has(result, qs_) == (isPut(b, qs_) && (len(prefix) == 0 || hasPrefix(qs_, prefix)))
 //@   loop#1 invariant result != nil && fresh(result) && unchanged(prefix)
 //@   loop#1 invariant forall qs_ string :: has(result, qs_) == (visited(qs_) && isPut(b, qs_) && (len(prefix) == 0 || hasPrefix(qs_, prefix)))
+
+// D4: bucket operations = overlay of this transaction's batch over the committed database, at the inner key.
+//@ define ikey(b, key) = strOf(b.innerKeyForIterator(key))
+//@ define wfBucketTx(b) = (b != nil && b.pathLen == len(b.path) && b.tx != nil && b.tx.l != nil && (!b.tx.readOnly ==> wfBatch(b.tx.b) && b.tx.b.seqNo < 0xffffffff))
+//@ define batchSame(bt) = (bt.seqNo == old(bt.seqNo) && (forall qs_ string :: has(bt.puts, qs_) == old(has(bt.puts, qs_)) && bt.puts[qs_] == old(bt.puts[qs_]) && has(bt.deletes, qs_) == old(has(bt.deletes, qs_)) && bt.deletes[qs_] == old(bt.deletes[qs_])))
+
+//@ func (*levelBucket).Put
+//@   props C11 C18 C19
+//@   requires wfBucketTx(b)
+//@   modifies b.tx.b, b.tx.b.puts
+//@   ensures b.tx.readOnly ==> err == db.ErrWriteNotAllowed
+//@   ensures !b.tx.readOnly && len(value) == 0 ==> err == db.ErrIllegalValue
+//@   ensures !b.tx.readOnly && len(value) > 0 && len(key) == 0 ==> err == db.ErrIllegalKey
+//@   ensures !b.tx.readOnly && len(value) > 0 && len(key) > 0 ==> err == nil
+//@   ensures err == nil ==> wfBatch(b.tx.b) && isPut(b.tx.b, ikey(b, key)) && sameSlice(b.tx.b.puts[ikey(b, key)].data, value)
+//@   ensures err == nil ==> forall qs_ string :: qs_ != ikey(b, key) ==> has(b.tx.b.puts, qs_) == old(has(b.tx.b.puts, qs_)) && b.tx.b.puts[qs_] == old(b.tx.b.puts[qs_])
+//@   ensures err != nil && !b.tx.readOnly ==> batchSame(b.tx.b)
+
+//@ func (*levelBucket).Delete
+//@   props C11 C18 C19
+//@   requires wfBucketTx(b)
+//@   modifies b.tx.b, b.tx.b.deletes
+//@   ensures b.tx.readOnly ==> err == db.ErrWriteNotAllowed
+//@   ensures !b.tx.readOnly ==> err == nil
+//@   ensures err == nil && len(key) > 0 ==> wfBatch(b.tx.b) && isDeleted(b.tx.b, ikey(b, key))
+//@   ensures err == nil && len(key) > 0 ==> forall qs_ string :: qs_ != ikey(b, key) ==> has(b.tx.b.deletes, qs_) == old(has(b.tx.b.deletes, qs_)) && b.tx.b.deletes[qs_] == old(b.tx.b.deletes[qs_])
+//@   ensures !b.tx.readOnly && len(key) == 0 ==> batchSame(b.tx.b)
+
+//@ func (*levelBucket).Get
+//@   props C11 C19
+//@   requires wfBucketTx(b)
+//@   ensures len(key) == 0 ==> result == nil && err == nil
+//@   ensures err != nil ==> result == nil
+//@   ensures err == nil && len(key) > 0 && b.tx.readOnly ==> (result != nil) == has(committed(b.tx.l.ldb), ikey(b, key))
+//@   ensures err == nil && len(key) > 0 && b.tx.readOnly && result != nil ==> strOf(result) == committed(b.tx.l.ldb)[ikey(b, key)]
+//@   ensures err == nil && len(key) > 0 && !b.tx.readOnly && isDeleted(b.tx.b, ikey(b, key)) ==> result == nil
+//@   ensures err == nil && len(key) > 0 && !b.tx.readOnly && isPut(b.tx.b, ikey(b, key)) ==> sameSlice(result, b.tx.b.puts[ikey(b, key)].data)
+//@   ensures err == nil && len(key) > 0 && !b.tx.readOnly && !isPut(b.tx.b, ikey(b, key)) && !isDeleted(b.tx.b, ikey(b, key)) ==> (result != nil) == has(committed(b.tx.l.ldb), ikey(b, key))
+//@   ensures err == nil && len(key) > 0 && !b.tx.readOnly && !isPut(b.tx.b, ikey(b, key)) && !isDeleted(b.tx.b, ikey(b, key)) && result != nil ==> strOf(result) == committed(b.tx.l.ldb)[ikey(b, key)]
+
+// D5: a transaction commits with exactly one write of its whole batch; a read-only one never writes.
+//@ func (*transaction).Commit
+//@   props C11 C18 C19
+//@   requires tx != nil && tx.l != nil && (!tx.readOnly ==> tx.b != nil)
+//@   modifies committed(tx.l.ldb)
+//@   ensures tx.readOnly ==> result == nil && (forall qs_ string :: has(committed(tx.l.ldb), qs_) == old(has(committed(tx.l.ldb), qs_)) && committed(tx.l.ldb)[qs_] == old(committed(tx.l.ldb)[qs_]))
+//@   ensures result != nil ==> (forall qs_ string :: has(committed(tx.l.ldb), qs_) == old(has(committed(tx.l.ldb), qs_)) && committed(tx.l.ldb)[qs_] == old(committed(tx.l.ldb)[qs_]))
+
+//@ func (*transaction).Rollback
+//@   props C11 C18 C19
+//@   requires tx != nil && tx.l != nil
+//@   ensures result == nil
+
+// D6: iteration range of a bucket: [path_start, path_limit) or, without limit, everything under path_
+//@ func (*levelBucket).NewIterator
+//@   props C11 C19
+//@   requires wfBucketTx(b)
+//@   modifies slice
+//@   ensures result != nil
+//@   ensures slice != nil && len(old(slice.Limit)) > 0 ==> strOf(result.(*levelIterator).slice.Limit) == old(ikey(b, slice.Limit))
+//@   ensures slice != nil ==> strOf(result.(*levelIterator).slice.Start) == old(ikey(b, slice.Start))
+//@   ensures slice == nil ==> strOf(result.(*levelIterator).slice.Start) == ikey(b, nil)
+//@   ensures (slice == nil || len(old(slice.Limit)) == 0) ==> isPrefixSucc(b.innerKeyForIterator(nil), result.(*levelIterator).slice.Limit)
+
+// the exclusive upper bound of all keys with prefix p (p not all 0xff): p cut after its last byte below 0xff, that byte + 1
+//@ define isPrefixSucc(p, lim) = (lim != nil && 1 <= len(lim) && len(lim) <= len(p) && (forall qj_ int :: 0 <= qj_ && qj_ < len(lim)-1 ==> lim[qj_] == p[qj_]) && mathint(lim[len(lim)-1]) == mathint(p[len(lim)-1]) + 1 && (forall qj_ int :: len(lim) <= qj_ && qj_ < len(p) ==> p[qj_] == 0xff))
+
+//@ func newBatchIterator
+//@   props C11
+//@   trusted
+//@   ensures result != nil
+
+//@ func (*levelIterator).Key
+//@   props C11 C19
+//@   requires it != nil && it.b != nil && it.b.tx != nil && it.b.pathLen >= 0 && it.iter != nil && (!it.b.tx.readOnly ==> it.batchIter != nil)
+//@   requires ghostb("iterKeysInBucket", it)
+//@   nopanic off
